@@ -18,6 +18,12 @@ for id in ${@:-$(ls /verif/seeded)}; do
   out=$(PYTHONPATH=$WT/src VERIF_SEED=${VERIF_SEED:-0} timeout 3000 ./check $prop --tier quick 2>&1); rc=$?
   echo "$id: check $prop exit=$rc :: $(echo "$out" | grep -E '^(VIOLATION|INFRA|OK)' | head -2 | cut -c1-160 | tr '\n' ' ')"
   cp $V/evidence/$prop.json /var/tmp/eval-evidence-$id.json 2>/dev/null
+  python3 - "$id" "$prop" "$rc" "$(echo "$out" | grep -E '^(VIOLATION|INFRA|OK)' | head -1 | sed "s#$V#/verif#g")" <<'PY'
+import json, sys
+i, prop, rc, line = sys.argv[1:5]
+json.dump({"check": prop, "tier": "quick", "exit": int(rc), "first_line": line[:300],
+           "caught": int(rc) == 1 and line.startswith("VIOLATION")}, open(f"/verif/seeded/{i}/result.json", "w"), indent=1)
+PY
   if [ $rc -eq 1 ]; then f=$(echo "$out" | grep -m1 -o 'replay=[^ ]*' | cut -d= -f2); [ -n "$f" ] && cp "$f" /verif/seeded/$id/replay_found.json; fi
 done
 cd /; git -C /repo worktree remove --force $WT; rm -rf $V
